@@ -267,6 +267,10 @@ def run_obligation(prop, modname, path, func, meta, param, tier, known, doc):
             rec["notes"].append("cannot parse counterexample: " + res["message"][:400])
             break
         rp = replay_call(modname, func, param, tier, args_src)
+        if rp.get("status") == "violated" and str(rp.get("result", "")).lstrip("'\"").startswith("harness-error"):
+            verdict = "harness-error"
+            rec["notes"].append("%s(%s): %s" % (func, args_src, rp.get("result")))
+            break
         if rp.get("status") != "violated":
             verdict = "harness-error"
             rec["notes"].append("counterexample %s(%s) did not reproduce concretely: %s" % (func, args_src, rp))
